@@ -1055,7 +1055,18 @@ func ruleR186(c *Ctx) {
 	if rs.Key != nil {
 		idx, _ = rs.Key.(*ast.Ident)
 	}
-	if rv == nil || len(rs.Body.List) != 1 {
+	// a flag instead of the index: first := true; for _, r := range s { if !ok(r, first) { return false }; first = false }
+	var flag types.Object
+	if rv != nil && len(rs.Body.List) == 2 {
+		if as, ok := rs.Body.List[1].(*ast.AssignStmt); ok && as.Tok == token.ASSIGN && len(as.Lhs) == 1 && len(as.Rhs) == 1 && nodeStr(c.Fset, as.Rhs[0]) == "false" {
+			if id, ok := as.Lhs[0].(*ast.Ident); ok {
+				if das, di := definingAssign(info, fd, info.ObjectOf(id)); das != nil && len(das.Rhs) == len(das.Lhs) && nodeStr(c.Fset, das.Rhs[di]) == "true" && das.Pos() < rs.Pos() && countAssignments(info, fd, info.ObjectOf(id)) == 2 {
+					flag = info.ObjectOf(id)
+				}
+			}
+		}
+	}
+	if rv == nil || (len(rs.Body.List) != 1 && flag == nil) {
 		c.Undecided(key, rs.Pos(), "loop body is not a single test")
 		return
 	}
@@ -1101,6 +1112,9 @@ func ruleR186(c *Ctx) {
 			assume[idx.Name+" != 0"] = !first
 			assume[idx.Name+" >= 1"] = !first
 			assume["0 < "+idx.Name] = !first
+		}
+		if flag != nil {
+			assume[flag.Name()] = first
 		}
 		p := &runePred{c: c, pkg: ep, v: info.ObjectOf(rv), assume: assume}
 		rejected := p.eval(reject)
